@@ -272,6 +272,193 @@ def splineRespace (dot : V → V → K) (sqrt : K → K) (interp : List K → Li
 end splinerespace
 end Path
 
+/-! ### the loops of `ISMPath.relax` over whole paths, `relax` with its options, list forms of the array programs
+
+`relaxLoop` is one `for i in range(n): new = step(cur); d = measure(cur, new); cur = new; if d < tol: break` over any
+kind of state; `Path.relax` is the whole method: defaults of `timestep` / `tolerance` from the string it is called on,
+relaxation loop without climbing images, choice of the climbing images from the energies of the string reached,
+climbing loop.  The re-spacing is a parameter as in `stringStep`.  `Generated/PathSource.lean` is regenerated from
+`ISMPath.py` / `BasePath.py` / `__init__.py`; `Proofs/C20_Source.lean` proves the generated definitions equal to these. -/
+
+def relaxLoop {P K : Type} [LT K] [DecidableLT K] (step : P → P) (measure : P → P → K) (tol : K) : Nat → P → P × List K
+  | 0, p => (p, [])
+  | n + 1, p =>
+    let q := step p
+    let d := measure p q
+    if d < tol then (q, [d]) else
+      let r := relaxLoop step measure tol n q
+      (r.1, d :: r.2)
+
+/-- the arguments of `relax` (`verbose` only prints). -/
+structure RelaxArgs (K : Type) where
+  relaxsteps : Nat := 0
+  climbsteps : Nat := 0
+  timestep : Option K := none
+  tolerance : Option K := none
+  climbpoints : Nat := 1
+
+/-- what `relax` computes: the string returned, the measures of the relaxation steps, the climbing images chosen,
+    the measures of the climbing steps. -/
+structure RelaxResult (V K : Type) where
+  path : Path V K
+  relaxMeasures : List K
+  climb : List Nat
+  climbMeasures : List K
+
+namespace Path
+section relaxmodel
+variable {V K : Type} [Add V] [Sub V] [Neg V] [SMul K V] [Add K] [Sub K] [Mul K] [Div K] [Neg K] [NatCast K]
+  [LT K] [DecidableLT K]
+
+/-- the convergence measure between two strings. -/
+def measure (dot : V → V → K) (sqrt : K → K) (h : K) (old new : Path V K) : K :=
+  displacement dot sqrt h old.coord new.coord
+
+def relax (p : Path V K) (dot : V → V → K) (sqrt : K → K) (respace : List Nat → List V → List V)
+    (a : RelaxArgs K) : RelaxResult V K :=
+  let h := a.timestep.getD (defaultTimestep p.coord.length)
+  let tol := a.tolerance.getD (defaultTolerance p.coord.length)
+  let r1 := relaxLoop (fun q => q.stringStep dot sqrt respace h []) (measure dot sqrt h) tol a.relaxsteps p
+  let climb := climbIndices a.climbpoints r1.1.energy
+  let r2 := relaxLoop (fun q => q.stringStep dot sqrt respace h climb) (measure dot sqrt h) tol a.climbsteps r1.1
+  ⟨r2.1, r1.2, climb, r2.2⟩
+
+end relaxmodel
+end Path
+
+/-! list forms of numpy's slices / row operations used by the generated definitions -/
+namespace Np
+variable {V K : Type}
+/-- `x[1:] - x[:-1]` and friends: element-wise binary operation of two equally long slices. -/
+def ew {α β γ : Type} (f : α → β → γ) (a : List α) (b : List β) : List γ := List.zipWith f a b
+/-- `np.linalg.norm(x, axis=-1)`. -/
+def rowNorms (dot : V → V → K) (sqrt : K → K) (x : List V) : List K := x.map (fun v => sqrt (dot v v))
+/-- `(x.T / np.linalg.norm(x, axis=-1)).T`. -/
+def rowUnit [Add V] [Sub V] [SMul K V] [Add K] [Div K] [NatCast K] (dot : V → V → K) (sqrt : K → K) (x : List V) : List V :=
+  x.map (Path.unitOf dot sqrt)
+/-- `.max()` of an array of norms (non-negative numbers). -/
+def maxOf [NatCast K] [LT K] [DecidableLT K] (x : List K) : K := x.foldl (fun m y => if m < y then y else m) (((0 : Nat) : K))
+/-- `np.arange(len(mask))[mask]`. -/
+def whereTrue (mask : List Bool) : List Nat := (List.range mask.length).filter (fun i => mask.getD i false)
+/-- `mask.sum()`. -/
+def countTrue (mask : List Bool) : Nat := mask.count true
+end Np
+
+/-! ### construction: `create_path` / `BasePath.__init__` and the setters of `gradientfxn` / `integratorfxn` -/
+
+/-- what is handed in as `gradientfxn` / `integratorfxn`: a string, a callable, or something else. -/
+inductive FxnArg where
+  | name (s : String)
+  | callable
+  | other
+deriving Repr, DecidableEq
+
+/-- what is handed in as `gradientkwargs`. -/
+inductive KwArg where
+  | none
+  | dict
+  | other
+deriving Repr, DecidableEq
+
+inductive PyErr where
+  | value
+  | type
+deriving Repr, DecidableEq
+
+inductive GradChoice where
+  | centralDifference
+  | user
+deriving Repr, DecidableEq
+
+inductive IntegChoice where
+  | rungekutta
+  | euler
+  | user
+deriving Repr, DecidableEq
+
+/-- the names the `gradientfxn` setter knows. -/
+def gradientNames : List (String × GradChoice) :=
+  [("central_difference", .centralDifference), ("cdiff", .centralDifference)]
+/-- the names the `integratorfxn` setter knows. -/
+def integratorNames : List (String × IntegChoice) :=
+  [("rungekutta", .rungekutta), ("rk", .rungekutta), ("euler", .euler)]
+/-- the styles `create_path` knows (all ISMPath). -/
+def styleNames : List String := ["ISM", "improved_string_method"]
+
+def resolveGradientfxn : FxnArg → Except PyErr GradChoice
+  | .name s => match gradientNames.lookup s with
+    | some g => .ok g
+    | none => .error .value
+  | .callable => .ok .user
+  | .other => .error .type
+
+def resolveIntegratorfxn : FxnArg → Except PyErr IntegChoice
+  | .name s => match integratorNames.lookup s with
+    | some g => .ok g
+    | none => .error .value
+  | .callable => .ok .user
+  | .other => .error .type
+
+/-- arguments of `create_path` (an argument left out = `none` = the default of the signature). -/
+structure CtorArgs where
+  energyCallable : Bool
+  style : Option String := none
+  gradientfxn : Option FxnArg := none
+  gradientkwargs : Option KwArg := none
+  integratorfxn : Option FxnArg := none
+deriving Repr
+
+def defaultStyle : String := "ISM"
+def defaultGradientfxn : FxnArg := .name "cdiff"
+def defaultIntegratorfxn : FxnArg := .name "rk"
+def defaultGradientkwargs : KwArg := .none
+
+/-- `BasePath.__init__` after the coordinates were stored: the checks in the order of the source (the first one that
+    fails decides the exception).  Result: the gradient function, the integrator, and whether the path owns a new empty
+    settings dictionary (`gradientkwargs=None`) or holds the caller's. -/
+def initPath (a : CtorArgs) : Except PyErr (GradChoice × IntegChoice × Bool) := do
+  if ¬ a.energyCallable then throw .type
+  let g ← resolveGradientfxn (a.gradientfxn.getD defaultGradientfxn)
+  let i ← resolveIntegratorfxn (a.integratorfxn.getD defaultIntegratorfxn)
+  let fresh ← (match a.gradientkwargs.getD defaultGradientkwargs with
+    | .none => (pure true : Except PyErr Bool)
+    | .dict => pure false
+    | .other => throw .type)
+  pure (g, i, fresh)
+
+/-- `create_path`: the style is looked at first. -/
+def createPath (a : CtorArgs) : Except PyErr (GradChoice × IntegChoice × Bool) :=
+  if styleNames.contains (a.style.getD defaultStyle) then initPath a else .error .value
+
+/-- signatures (name, default as written in the source) of the public entry points. -/
+def sigCreatePath : List (String × String) :=
+  [("coord", ""), ("energyfxn", ""), ("style", "'ISM'"), ("gradientfxn", "'cdiff'"), ("gradientkwargs", "None"),
+   ("integratorfxn", "'rk'")]
+def sigInit : List (String × String) :=
+  [("self", ""), ("coord", ""), ("energyfxn", ""), ("gradientfxn", "'cdiff'"), ("gradientkwargs", "None"),
+   ("integratorfxn", "'rk'")]
+def sigStep : List (String × String) := [("self", ""), ("timestep", "None"), ("climbindex", "None")]
+def sigRelax : List (String × String) :=
+  [("self", ""), ("relaxsteps", "0"), ("climbsteps", "0"), ("timestep", "None"), ("tolerance", "None"),
+   ("climbpoints", "1"), ("verbose", "True")]
+/-- the order in which `__init__` stores / checks its arguments. -/
+def initOrder : List String := ["coord", "energyfxn", "gradientfxn", "integratorfxn", "gradientkwargs"]
+/-- the arguments with which `step` / `interpolate_path` build the path they return (positional then keyword):
+    every function and setting of the path is handed on. -/
+def carriedFields : List String := ["energyfxn", "gradientfxn", "gradientkwargs", "integratorfxn"]
+/-- statement pins of the segment loop of `step` (not expressed as a definition: `respaceTargets` is tied by
+    observing `newα` on the implementation). -/
+def stepSegmentPins : List String :=
+  ["startindices = [0] + aslist(climbindex)",
+   "endindices = aslist(np.asarray(climbindex) + 1) + [None]",
+   "α = intpath.arccoord",
+   "newα = np.empty_like(α)",
+   "for (s, e) in zip(startindices, endindices):",
+   "subα = α[s:e]",
+   "newα[s:e] = np.linspace(subα[0], subα[-1], len(subα))",
+   "newpath = intpath.interpolate_path(newα)",
+   "return newpath"]
+
 /-! ### `central_difference` on arrays of points of any leading shape
 
 A coordinate array of shape `(…, d)` is the list of its points in row-major order together with the
